@@ -29,7 +29,7 @@ def run(ctx):
     ctx.do(SH.rule_sh2, only={"kleinian_to_poincare", "poincare_to_kleinian", "poincare_to_halfspace", "halfspace_to_poincare", "hyperboloid_coords", "apply_bilinear", "normsq", "normalize"})
     ctx.do(SI.rule_pt1, [SI.HYP], scope=ctx.scope(ENTRIES))
     ctx.do(SH.rule_sh5, only={"Point.coords", "Point.distance"})
-    ctx.do(SH.rule_hom1, parts=("hyp",), only={"Point.coords", "Point.distance"}, min_proved=4)
+    ctx.do(SH.rule_hom1, parts=("hyp",), only={"Point.coords", "Point.distance", "Point.kleinian_coords", "Point.poincare_coords", "Point.halfspace_coords", "Point.hyperboloid_coords", "None.kleinian_coords", "None.hyperboloid_coords"}, min_proved=8)
     ctx.do(PR.rule_fr1, setter=False)
     ctx.do(SH.rule_ax1, [SH.CORE, H.HYP], scope=ctx.scope(ENTRIES))
     ctx.do(u1, ENTRIES, min_functions=15)
